@@ -218,6 +218,8 @@ def gen_cfg(rng):
                 "ctrl_nmax": rng.randint(6, 24),
             }
         )
+    # kernel order is free: a correlation kernel may precede the exchange kernel
+    rng.shuffle(kernels)
     # MOLGP2's orbital-derivative path raises TypeError/IndexError on the unchanged tree
     # (indexes a (spin, array) tuple; noted in DESIGN.md): derivative entries only with MOLGP
     deriv = rng.chance(0.4) and version == 1 and not any(k["mode"] == "POL" for k in kernels)
